@@ -375,13 +375,13 @@ PLAN['C03'] = mk_e2(
     'Bounded symbolic verification of the round trip: for each corpus schema and shape, for all valid leaf values: w = ser(de(v)) keeps every declared member with an equal value, adds only schema defaults, and ser(de(v + defaults)) == w.',
     extra_outside=['idempotence is checked on v + defaults (concrete layout) instead of re-reading w, whose member presence is symbolic; that omitted members may be omitted is covered by the instance harnesses with those members absent'])
 PLAN['C11'] = mk_e2(
-    'C11', lambda tier, rng: e2_select('C11', tier, rng, r'_se_(colors|odd)_(e|1|2|21)$|_sn_(colors|odd)_\d_(x|t)$|_sp_alias_(e|2|21)$|_sc_len_2_3_(1|21|22|222)$', 14),
+    'C11', lambda tier, rng: e2_select('C11', tier, rng, r'_se_(colors|odd)_(e|1|2|21)$|_sn_(colors|odd)_\d_(x|t)$|_sp_alias_(e|2|21)$|_sc_len_2_3_(1|21|22|222)$|_sc_len_0_1_(1|11|21)$|_sc_len_n_2_(111|21)$', 14),
     'bounded symbolic execution + SAT (Kani/CBMC) of generated FromStr/TryFrom/Display vs Deserialize/Serialize over all code points',
     'bounded symbolic verification (Kani/CBMC) of the string conversions typify generates (string enums, constrained and plain string newtypes): for every string of the harness\'s width pattern parse, the three TryFrom flavours and Deserialize agree, accepted values serialize back to the same string, Display prints what Serialize writes',
     GEN_FUNCS,
     'Bounded symbolic verification of generated string conversions: for all strings of up to 3 Unicode scalar values (all code points) and every member with one scalar substituted/appended/removed: s.parse().is_ok() == deserialize(s).is_ok(), TryFrom agrees, values equal, to_string() == serialized string.')
 PLAN['C14'] = mk_e2(
-    'C14', lambda tier, rng: e2_select('C14', tier, rng, r'_eq_(pt|withenum)_\w+_p$', 4),
+    'C14', lambda tier, rng: e2_select('C14', tier, rng, r'_eq_(pt|withenum|nullable_obj|renamed|nulldef)_\w+_p$', 4),
     'bounded symbolic execution + SAT (Kani/CBMC): two-program equivalence of the types generated under two settings, on one symbolic instance',
     'bounded symbolic verification (Kani/CBMC) of the behavioural sentence of C14 only: for the corpus structs/tuples, the type generated under default settings and under {builder, extra derive, BTreeMap map type, a patch renaming another definition} accept the same instances and write the same JSON; the syntactic obligations (names, derive lists, use sites) are facts about rendered tokens and are outside',
     GEN_FUNCS + ['typify_impl::TypeSpaceSettings::{with_struct_builder, with_derive, with_map_type, with_patch}'],
@@ -405,7 +405,7 @@ PLAN['C18'] = mk_e2(
 
 def c05_all(tier, rng):
     u = c05_units(tier, rng)
-    u += e2_select('C05', tier, rng, r'_sc_len_2_3_(e|1|21|22|222|2222)$|_sd_notab_(1|m0)$|_in_|_id_\w+$|_inst_pt_closed_(x0|p)$|_inst_(pair|triple)_a0[pm]$|_se_colors_(1|21)$|_sn_colors_1_(x|s0)$', 14)
+    u += e2_select('C05', tier, rng, r'_sc_len_2_3_(e|1|21|22|222|2222)$|_sc_len_0_1_(11|21)$|_sc_len_n_2_(111)$|_sd_notab_(1|m0)$|_in_|_id_\w+$|_inst_pt_closed_(x0|p)$|_inst_(pair|triple)_a0[pm]$|_se_colors_(1|21)$|_sn_colors_1_(x|s0)$', 14)
     return u
 
 
